@@ -21,11 +21,12 @@ from . import common as C
 
 ID = 'C08'
 REAL_REPLAY = False
-STUBS = ['flexsolve.aitken_secant / IQ_interpolation inside bubble_point.py and dew_point.py: evaluate the residual once at a fresh point and return it',
+STUBS = ['flexsolve.aitken_secant / IQ_interpolation inside bubble_point.py and dew_point.py: evaluate the residual once at a fresh point and return it, assuming the contract residual(point) == 0 (bubble-point / dew-point groups)',
          'flexsolve.wegstein (dew-point activity iteration): one application of the iteration function',
          'Psats[i](T), gamma(x, T), pcf(T, P, Psats): uninterpreted positive functions; phi = ideal (1)']
 ASSUMPTIONS = ['z_i > 0 symbolic, T in (260, 480), P in (5e3, 3e6)', 'single-component clause: concrete P / T from a small grid (the saturation curves are the real database correlations)']
-OUTSIDE = ['residual of the returned root', 'T <-> P round trip', 'bubble T <= dew T, dew P <= bubble P', 'z versus k*z (needs a deterministic root)', 'permutation invariance of the root']
+OUTSIDE = ['that the float iteration converges to a root (the root finder is assumed to meet its contract f(root) = 0)', 'T <-> P round trip', 'bubble T <= dew T, dew P <= bubble P',
+           'dew points with composition-dependent activity coefficients: only normalisation and sign of the returned composition (the defining equation is decided with activity coefficients that depend on T only)', 'scale dependence of the initial guess handed to the root finder', 'permutation invariance of the root']
 BOUNDS = {'quick': dict(components='2-3'), 'thorough': dict(components='2-3')}
 _fx = {}
 
@@ -51,6 +52,7 @@ def setup(mode):
 class Flx:
     def __init__(self, E, real):
         self.E, self.real, self.k = E, real, 0
+        self.residuals = []
 
     def __getattr__(self, n):
         return getattr(self.real, n)
@@ -59,8 +61,14 @@ class Flx:
         self.k += 1
         self.E.stub_called('root-finder')
         r = self.E.real(f'root{self.k}', lo=lo, hi=hi, nice=(lo * 1.2, hi * 0.8))
-        f(r, *args)
+        val = f(r, *args)
+        self.residuals.append(val)
+        if self.exact:
+            # contract of a root finder: the returned point is a root of the function it was given
+            self.E.assume(self.E.eq(val, 0.0), f'root finder contract: f(root{self.k}) == 0')
         return r
+
+    exact = True             # assume the contract f(root) == 0
 
     rng = (260., 480.)       # set by the harness: temperature or pressure range of the unknown
 
@@ -77,21 +85,21 @@ class Flx:
 
 class Gamma:
     """activity coefficients gamma_i(x, T): uninterpreted, positive; the .f/.args interface used by dew points"""
-    def __init__(self, E, n):
-        self.E, self.n = E, n
+    def __init__(self, E, n, of_T_only=False):
+        self.E, self.n, self.of_T_only = E, n, of_T_only
         self.args = ()
         self.f = self.__call__
 
     def __call__(self, x, T, *a):
         out = []
         for i in range(self.n):
-            g = self.E.uf(f'gamma{i}', *list(x), T)
+            g = self.E.uf(f'gammaT{i}', T) if self.of_T_only else self.E.uf(f'gamma{i}', *list(x), T)
             self.E.assume(g > 0)
             out.append(g)
         return C.array(self.E, out)
 
 
-def instrument(E, obj, n, mod):
+def instrument(E, obj, n, mod, gamma_of_T_only=False):
     def psat(i):
         def f(T):
             p = E.uf(f'Psat{i}', T)
@@ -99,7 +107,7 @@ def instrument(E, obj, n, mod):
             return p
         return f
     obj.Psats = [psat(i) for i in range(n)]
-    obj.gamma = Gamma(E, n)
+    obj.gamma = Gamma(E, n, gamma_of_T_only)
 
     def pcf(T, P, Psats):
         out = []
@@ -145,11 +153,14 @@ def g_bubble(ns=(2, 3)):
                 P, y = bp.solve_Py(C.array(E, z), T)
             y = list(y)
             zn = [x / zs for x in z]
-            w = [z[i] * E.uf(f'gamma{i}', *zn, T) * E.uf(f'pcf{i}', T, P) * E.uf(f'Psat{i}', T) / P for i in range(n)]
+            w = [zn[i] * E.uf(f'gamma{i}', *zn, T) * E.uf(f'pcf{i}', T, P) * E.uf(f'Psat{i}', T) / P for i in range(n)]
             sw = sum(w)
             E.observe('y0', y[0])
             # below 1e-16 normalize() returns equal fractions by design (solve_Py works on the normalised z)
-            big = (sw >= 1e-16) if which == 'solve_Ty' else (sw >= 1e-16 * zs)
+            big = (sw >= 1e-16)
+            # given the root finder's contract (it returns a root of the residual it was handed), the mole fractions
+            # implied by modified Raoult's law for the NORMALISED liquid composition sum to one at the returned point
+            E.prove('bubble-point-makes-the-Raoult-vapour-fractions-sum-to-one', E.eq(sw, 1.0), sig=f'{which}/n={n}')
             E.prove('bubble-composition-normalised', E.implies(big, E.eq(sum(y), 1.0)), sig=f'{which}/n={n}')
             E.prove('bubble-composition-is-modified-Raoult-at-the-returned-point',
                     E.implies(big, E.all([E.eq(y[i] * sw, w[i]) for i in range(n)])), sig=f'{which}/n={n}')
@@ -167,9 +178,13 @@ def g_dew(ns=(2, 3)):
         dp = dpm.DewPoint(chems, th)
         saved = (dp.Psats, dp.gamma, dp.pcf)
         try:
-            instrument(E, dp, n, dpm)
+            # with activity coefficients that depend on T only the Wegstein iteration is exact after one step and the
+            # residual handed to the root finder can be compared with the defining equation
+            simple = E.choice(2, 'activity-coefficients-depend-on-T-only')
+            instrument(E, dp, n, dpm, gamma_of_T_only=bool(simple))
             which = E.pick(['solve_Tx', 'solve_Px'], 'which')
             z = zvec(E, n)
+            zs = sum(z)
             if which == 'solve_Tx':
                 P = E.real('P', lo=5e3, hi=3e6, nice=(5e4, 5e5))
                 T, x = dp.solve_Tx(C.array(E, z), P)
@@ -181,6 +196,11 @@ def g_dew(ns=(2, 3)):
             E.observe('x0', x[0])
             E.prove('dew-composition-normalised', E.eq(sum(x), 1.0), sig=f'{which}/n={n}')
             E.prove('dew-composition-non-negative', E.all([E.ge(v, 0.0) for v in x]), sig=f'{which}/n={n}')
+            if simple:
+                w = [(z[i] / zs) * P / (E.uf(f'Psat{i}', T) * E.uf(f'gammaT{i}', T) * E.uf(f'pcf{i}', T, P)) for i in range(n)]
+                sw = sum(w)
+                E.prove('dew-point-makes-the-Raoult-liquid-fractions-sum-to-one', E.eq(sw, 1.0), sig=f'{which}/n={n}')
+                E.prove('dew-composition-is-modified-Raoult-at-the-returned-point', E.all([E.eq(x[i] * sw, w[i]) for i in range(n)]), sig=f'{which}/n={n}')
         finally:
             dp.Psats, dp.gamma, dp.pcf = saved
     return run
